@@ -56,6 +56,8 @@ type Interp struct {
 	Info   *types.Info
 	Parser *types.Named
 	Roles  map[string]Role
+	sums   map[string]*Result // summaries of helper methods (not evaluators, not role functions)
+	busy   map[string]bool
 }
 
 func New(v *variants.Variant) (*Interp, error) {
@@ -177,7 +179,35 @@ func (r *run) siteOf(n ast.Node) string {
 func (in *Interp) exprText(e ast.Expr) string { return types.ExprString(e) }
 
 // Run analyses one function to a fixpoint over (block, abstract state).
-func (in *Interp) Run(fd *ast.FuncDecl) *Result {
+func (in *Interp) Run(fd *ast.FuncDecl) *Result { return in.runSeeded(fd, false) }
+
+// summary analyses a helper method with symbolic parameters ("param:<i>" epochs) so that its exits can be
+// transplanted into a caller (function summary, inlining depth bounded by the recursion guard).
+// Summary is the exported form of summary.
+func (in *Interp) Summary(name string) *Result { return in.summary(name) }
+
+func (in *Interp) summary(name string) *Result {
+	if in.sums == nil {
+		in.sums, in.busy = map[string]*Result{}, map[string]bool{}
+	}
+	if r, ok := in.sums[name]; ok {
+		return r
+	}
+	if in.busy[name] || len(in.busy) >= 3 {
+		return nil
+	}
+	fd := in.V.Func("parser", name)
+	if fd == nil || fd.Body == nil {
+		return nil
+	}
+	in.busy[name] = true
+	res := in.runSeeded(fd, true)
+	delete(in.busy, name)
+	in.sums[name] = res
+	return res
+}
+
+func (in *Interp) runSeeded(fd *ast.FuncDecl, symbolicParams bool) *Result {
 	r := &run{in: in, fd: fd, site: map[ast.Node]string{}}
 	// assign site ids deterministically in source order
 	ast.Inspect(fd.Body, func(n ast.Node) bool {
@@ -228,7 +258,30 @@ func (in *Interp) Run(fd *ast.FuncDecl) *Result {
 	if len(g.Blocks) == 0 {
 		return res
 	}
-	push(g.Blocks[0], newState())
+	init := newState()
+	if symbolicParams && fd.Type.Params != nil {
+		i := 0
+		for _, f := range fd.Type.Params.List {
+			for _, nm := range f.Names {
+				if o := in.Info.ObjectOf(nm); o != nil {
+					switch namedTypeName(o.Type()) {
+					case "savepoint":
+						init.Env[o] = Val{K: "sp", A: fmt.Sprintf("param:%d", i), B: "param"}
+					case "storeDict":
+						init.Env[o] = Val{K: "tok", A: fmt.Sprintf("param:%d", i)}
+					case "position":
+						init.Env[o] = Val{K: "pos", A: fmt.Sprintf("param:%d", i)}
+					default:
+						if b, ok := o.Type().Underlying().(*types.Basic); ok && b.Info()&types.IsBoolean != 0 {
+							init.Env[o] = Val{K: "bool", A: "U", B: fmt.Sprintf("param:%d", i)}
+						}
+					}
+				}
+				i++
+			}
+		}
+	}
+	push(g.Blocks[0], init)
 	exitSeen := map[string]bool{}
 	for len(work) > 0 {
 		it := work[len(work)-1]
@@ -702,6 +755,11 @@ func (r *run) call(s *State, c *ast.CallExpr) []outcome {
 			}
 		}
 		return []outcome{{s, res}}
+	}
+	if sel, ok := c.Fun.(*ast.SelectorExpr); ok && in.isP(sel.X) && role == RoleNone {
+		if sum := in.summary(sel.Sel.Name); sum != nil && len(sum.Exits) > 0 {
+			return r.applySummary(s, c, site, sum)
+		}
 	}
 	if r.effectful(c) {
 		s.undecided("call to %s may change tracked parser state (no transfer function)", in.exprText(c.Fun))
@@ -1306,4 +1364,165 @@ func (r *run) assume(s *State, e ast.Expr, val bool) {
 		return // debug never decides anything: both branches stay open (rule C06-a checks non-interference)
 	}
 	s.Facts[txt] = val
+}
+
+func namedTypeName(t types.Type) string {
+	if n, ok := t.(*types.Named); ok {
+		return n.Obj().Name()
+	}
+	return ""
+}
+
+// applySummary transplants every exit of a summarised helper into the caller state.
+func (r *run) applySummary(s *State, c *ast.CallExpr, site string, sum *Result) []outcome {
+	in := r.in
+	var args []Val
+	for _, a := range c.Args {
+		if ce, ok := a.(*ast.CallExpr); ok && r.effectful(ce) {
+			s.undecided("effectful call %s nested in arguments of helper %s", in.exprText(ce), in.exprText(c.Fun))
+			args = append(args, Unk("nested"))
+			continue
+		}
+		args = append(args, r.eval(s, a))
+	}
+	name := c.Fun.(*ast.SelectorExpr).Sel.Name
+	paramText := map[string]string{}
+	if sum.Fn.Type.Params != nil {
+		i := 0
+		for _, f := range sum.Fn.Type.Params.List {
+			for _, nm := range f.Names {
+				if i < len(c.Args) {
+					paramText[nm.Name] = in.exprText(c.Args[i])
+				}
+				i++
+			}
+		}
+	}
+	var out []outcome
+	for _, ex := range sum.Exits {
+		t := s.clone()
+		// epoch mapping per component: callee entry -> caller current; param:<i> -> the argument's epoch; other -> fresh
+		fresh := map[string]string{}
+		mk := func(x, cur string) string {
+			switch {
+			case x == Entry:
+				return cur
+			case x == Unknown:
+				return Unknown
+			case strings.HasPrefix(x, "param:"):
+				var i int
+				fmt.Sscanf(x, "param:%d", &i)
+				if i < len(args) && args[i].A != "" && (args[i].K == "sp" || args[i].K == "tok" || args[i].K == "pos") {
+					return args[i].A
+				}
+				return Unknown
+			}
+			n := site + "/" + x
+			fresh[n] = n
+			return n
+		}
+		pt0, st0, er0 := t.Pt, t.St, t.Er
+		mapPt := func(x string) string { return mk(x, pt0) }
+		mapSt := func(x string) string { return mk(x, st0) }
+		mapEr := func(x string) string { return mk(x, er0) }
+		var mapVal func(v Val) Val
+		mapVal = func(v Val) Val {
+			switch v.K {
+			case "sp", "pos", "rn", "spfield":
+				v.A = mapPt(v.A)
+			case "slice":
+				v.A, v.B = mapPt(v.A), mapPt(v.B)
+			case "tok":
+				v.A = mapSt(v.A)
+			case "errsnap":
+				v.A = mapEr(v.A)
+			case "child":
+				v.B = mapPt(v.B)
+				v.A = site + "/" + v.A
+			case "run", "err":
+				v.A = site + "/" + v.A
+			case "bool":
+				if strings.HasPrefix(v.B, "param:") {
+					var i int
+					fmt.Sscanf(v.B, "param:%d", &i)
+					if i < len(args) && args[i].K == "bool" {
+						return args[i]
+					}
+				}
+			}
+			if len(v.F) > 0 {
+				nf := map[string]Val{}
+				for k, f := range v.F {
+					nf[k] = mapVal(f)
+				}
+				v.F = nf
+			}
+			return v
+		}
+		es := ex.State
+		newPt, newSt, newEr := mapPt(es.Pt), mapSt(es.St), mapEr(es.Er)
+		for n := range fresh {
+			t.renameStale(n)
+		}
+		// events, re-based
+		for _, ev := range es.Ev {
+			ne := ev
+			ne.Pt, ne.St = mapPt(ev.Pt), mapSt(ev.St)
+			ne.VS = t.VS + ev.VS
+			ne.Args = append([]string(nil), ev.Args...)
+			for i, a := range ne.Args {
+				switch {
+				case ev.Kind == "restoreState" && i == 0:
+					ne.Args[i] = mapSt(a)
+				case ev.Kind == "errs=" && i == 0:
+					ne.Args[i] = mapEr(a)
+				case a == Entry || strings.HasPrefix(a, "param:"):
+					ne.Args[i] = mapPt(a)
+				case paramText[a] != "":
+					ne.Args[i] = paramText[a]
+				case ev.Kind == "eval" && i == 3, ev.Kind == "run" && i == 1:
+					ne.Args[i] = site + "/" + a
+				}
+			}
+			for i, v := range ne.Vals {
+				if i == 0 {
+					ne.Vals = append([]Val(nil), ne.Vals...)
+				}
+				ne.Vals[i] = mapVal(v)
+			}
+			// cap like State.event
+			cnt := 0
+			for _, x := range t.Ev {
+				if x.String() == ne.String() {
+					cnt++
+				}
+			}
+			if cnt < 3 {
+				t.Ev = append(t.Ev, ne)
+			}
+		}
+		changed := es.Pt != Entry
+		t.Pt, t.St, t.Er = newPt, newSt, newEr
+		t.VS, t.RS, t.Rec = saturate(t.VS+es.VS), saturate(t.RS+es.RS), saturate(t.Rec+es.Rec)
+		if es.Inv {
+			t.Inv = !t.Inv
+		}
+		if changed {
+			t.NotEOF = es.NotEOF
+		} else {
+			t.NotEOF = t.NotEOF || es.NotEOF
+		}
+		if len(es.Ev) > 0 || changed || es.St != Entry || es.Er != Entry {
+			r.dropVolatileFacts(t)
+		}
+		for _, u := range es.Und {
+			t.undecided("in helper %s: %s", name, u)
+		}
+		var res []Val
+		for _, v := range ex.Vals {
+			res = append(res, mapVal(v))
+		}
+		out = append(out, outcome{t, res})
+	}
+	return out
 }
